@@ -122,7 +122,7 @@ fn main() {
     });
     rep.run_sub(
         "partition",
-        &format!("all weak-order patterns of length 1..={} x every pivot position x strides {:?} (n<=6: all strides; n>6: unit + one rotating non-unit stride); element types i32 (spread table), NotNone<i32> (the crate's own ordered wrapper, reached through remove_nan_mut; n<=7), i64 (extreme values), Heavy(Box<i64>) (non-Copy)", nmax, steps),
+        &format!("all weak-order patterns of length 1..={} x every pivot position x strides {:?} (n<=6: all strides; n>6: unit + one rotating non-unit stride); element types i32 (spread table), [i64; 3] (24 bytes; n<=7), NotNone<i32> (the crate's own ordered wrapper, reached through remove_nan_mut; n<=7), i64 (extreme values), Heavy(Box<i64>) (non-Copy)", nmax, steps),
         cases,
         |c, lx| {
             let n = c.pat.len();
@@ -147,6 +147,9 @@ fn main() {
             }
             if n <= 7 {
                 run_notnone(c, lx);
+                // an element wider than two machine words (24 bytes): implementations that pick a partition
+                // scheme by element size take another path for it
+                run_one(c, c.pat.iter().map(|&r| [r as i64 * 3 - 4, 7, -(r as i64)]).collect::<Vec<[i64; 3]>>(), [-1000, 0, 0], lx, "[i64; 3]");
             }
         },
     );
